@@ -24,6 +24,7 @@ use astria_eyre::eyre::{
 };
 use bytes::Bytes;
 use pbjson_types::Timestamp;
+#[cfg_attr(feature = "verif", allow(unused_imports))]
 use tonic::transport::{
     Channel,
     Endpoint,
@@ -45,10 +46,30 @@ use tryhard::{
 #[derive(Clone)]
 pub(crate) struct Client {
     uri: Uri,
+    #[cfg(not(feature = "verif"))]
     inner: ExecutionServiceClient<Channel>,
+    // verif hook H7: in-process transport owned by the simulator instead of a network channel.
+    #[cfg(feature = "verif")]
+    inner: ExecutionServiceClient<verif_transport::InProcess>,
 }
 
 impl Client {
+    /// verif hook H7: the simulator's constructor variant. `connect_lazy` resolves the URI against
+    /// the in-process transports registered on this thread; there is no network in a verif build.
+    #[cfg(feature = "verif")]
+    pub(crate) fn connect_lazy(uri: &str) -> eyre::Result<Self> {
+        let transport = verif_transport::lookup(uri)
+            .ok_or_eyre("verif build: no in-process execution service registered for this uri")?;
+        let uri: Uri = uri
+            .parse()
+            .wrap_err("failed to parse provided string as uri")?;
+        Ok(Self {
+            uri,
+            inner: ExecutionServiceClient::new(transport),
+        })
+    }
+
+    #[cfg(not(feature = "verif"))]
     pub(crate) fn connect_lazy(uri: &str) -> eyre::Result<Self> {
         let uri: Uri = uri
             .parse()
@@ -199,6 +220,81 @@ impl Client {
         let commitment_state = CommitmentState::try_from_raw(response)
             .wrap_err("failed converting raw response to validated commitment state")?;
         Ok(commitment_state)
+    }
+}
+
+/// verif hook H7: a type-erased, clonable, `Send + Sync` in-process `tower::Service` that stands in
+/// for `tonic::transport::Channel` (conductor has no hyper dependency to build an in-memory channel
+/// with). Only compiled with the off-by-default cargo feature `verif`.
+#[cfg(feature = "verif")]
+pub(crate) mod verif_transport {
+    use std::{
+        cell::RefCell,
+        collections::HashMap,
+        convert::Infallible,
+        sync::Arc,
+        task::{
+            Context,
+            Poll,
+        },
+    };
+
+    use tonic::{
+        body::BoxBody,
+        codegen::{
+            http,
+            BoxFuture,
+            Service,
+        },
+    };
+
+    type Handler = dyn Fn(http::Request<BoxBody>) -> BoxFuture<http::Response<BoxBody>, Infallible>
+        + Send
+        + Sync;
+
+    #[derive(Clone)]
+    pub(crate) struct InProcess(Arc<Handler>);
+
+    impl InProcess {
+        #[allow(dead_code)]
+        pub(crate) fn new<F>(handler: F) -> Self
+        where
+            F: Fn(http::Request<BoxBody>) -> BoxFuture<http::Response<BoxBody>, Infallible>
+                + Send
+                + Sync
+                + 'static,
+        {
+            Self(Arc::new(handler))
+        }
+    }
+
+    impl Service<http::Request<BoxBody>> for InProcess {
+        type Error = Infallible;
+        type Future = BoxFuture<Self::Response, Self::Error>;
+        type Response = http::Response<BoxBody>;
+
+        fn poll_ready(&mut self, _: &mut Context<'_>) -> Poll<Result<(), Self::Error>> {
+            Poll::Ready(Ok(()))
+        }
+
+        fn call(&mut self, request: http::Request<BoxBody>) -> Self::Future {
+            (self.0)(request)
+        }
+    }
+
+    thread_local! {
+        static REGISTRY: RefCell<HashMap<String, InProcess>> = RefCell::new(HashMap::new());
+    }
+
+    /// Registers (or replaces) the transport that `Client::connect_lazy(uri)` resolves to on this
+    /// thread.
+    #[allow(dead_code)]
+    pub(crate) fn register(uri: &str, transport: InProcess) {
+        REGISTRY.with(|r| r.borrow_mut().insert(uri.to_string(), transport));
+    }
+
+    pub(crate) fn lookup(uri: &str) -> Option<InProcess> {
+        REGISTRY.with(|r| r.borrow().get(uri).cloned())
     }
 }
 
